@@ -66,6 +66,7 @@ type Ctx struct {
 	floors   []string
 	Extra    map[string]any
 	Quiet    bool
+	remap    map[string]string // rule id → rule id while a neighbouring property's rule runs under this property's name (As)
 }
 
 func NewCtx(prop, tier string, seed int64, root string, p *Prog) *Ctx {
@@ -95,10 +96,34 @@ func (c *Ctx) loadFindings() {
 }
 
 // Rule registers the text of a rule (shown in evidence).
-func (c *Ctx) Rule(id, text string) { c.rules[id] = text }
+func (c *Ctx) Rule(id, text string) { c.rules[c.ruleID(id)] = text }
+
+// As runs f with every obligation, rule text and floor of rule `from` recorded under `to`: a rule written for one property is a
+// necessary condition of a neighbouring one too, and is then reported under that property's own name.
+func (c *Ctx) As(from, to string, f func()) {
+	if c.remap == nil {
+		c.remap = map[string]string{}
+	}
+	old, had := c.remap[from]
+	c.remap[from] = to
+	f()
+	if had {
+		c.remap[from] = old
+	} else {
+		delete(c.remap, from)
+	}
+}
+
+func (c *Ctx) ruleID(id string) string {
+	if to, ok := c.remap[id]; ok {
+		return to
+	}
+	return id
+}
 
 // Enabled reports whether a rule runs (all do unless -only was given).
 func (c *Ctx) Enabled(rule string) bool {
+	rule = c.ruleID(rule)
 	if len(c.Only) == 0 {
 		return true
 	}
@@ -111,6 +136,7 @@ func (c *Ctx) Enabled(rule string) bool {
 }
 
 func (c *Ctx) add(o Obligation) {
+	o.Rule = c.ruleID(o.Rule)
 	k := o.Key()
 	if _, dup := c.seen[k]; dup && o.Verdict == Discharged {
 		return // the same obligation met again on another path
@@ -167,6 +193,7 @@ func (c *Ctx) Undecided(rule, construct string, pos token.Pos, format string, ar
 // Floor asserts a minimum instance count confirmed by hand; a rule that matches
 // fewer sites than were confirmed fails instead of passing vacuously.
 func (c *Ctx) Floor(rule, what string, got, min int) {
+	rule = c.ruleID(rule)
 	c.floors = append(c.floors, fmt.Sprintf("%s: %s = %d (floor %d)", rule, what, got, min))
 	if got < min {
 		c.Undecided(rule, "floor:"+what, token.NoPos, "instance count %d below the floor %d confirmed by hand: the rule no longer finds its anchors", got, min)
